@@ -4,6 +4,7 @@ import InovesaModel.Model.Ruler
 import InovesaModel.Model.FokkerPlanck
 import InovesaModel.Model.RFDrift
 import InovesaModel.Model.PhaseSpace
+import InovesaModel.Model.ElectricField
 open Inovesa
 namespace Driver
 
@@ -206,6 +207,98 @@ def runPS (c : Case) : List String :=
     | _ => (s, out ++ ["error unknown-op " ++ op])) (s0, [])
   ["case " ++ c.id] ++ lines
 
+/-! ### ElectricField in binary64 with the naive transforms (validates the FFTW assumption) -/
+
+instance : Lit Float := ⟨fun n d _ => Float.ofInt n / Float.ofNat d⟩
+instance : NatCast Float := ⟨Float.ofNat⟩
+
+def dLine (tag : String) (xs : List Float) : String :=
+  xs.foldl (fun s x => s ++ " " ++ f32hex x.toFloat32) tag
+
+def c_light : Float := 2.99792458e8
+
+/-- ef <id> <n> <nb> <nmax> <spacing> ; off = buckets ; parts = impedance ; extra = f_rev revpart
+    Ib E0 sigma_delta dt fcut ; data = profile sets ; ops -/
+def runEF (c : Case) : List String :=
+  let n := natArg c 2
+  let nb := natArg c 3
+  let nmax := natArg c 4
+  let spacing := natArg c 5
+  let e := fun i => (c.extra.getD i f32zero)
+  let zArr : Array (Float × Float) := ((List.range nmax).map fun i =>
+      ((c.parts.getD (2 * i) f32zero).toFloat, (c.parts.getD (2 * i + 1) f32zero).toFloat)).toArray
+  -- the harness builds the PhaseSpace with mkps defaults: q,p in [-6,6], scales 1e-3 m, 6.11e5 eV
+  let ax : Ruler Float32 := { steps := n, min := Float32.ofBits 0xc0c00000, max := Float32.ofBits 0x40c00000 }
+  let delta : Float32 := ax.delta
+  let qscale : Float32 := (1e-3 : Float).toFloat32
+  let pscale : Float32 := (6.11e5 : Float).toFloat32
+  let frev := (e 0).toFloat
+  let revpart : Float32 := e 1
+  let ib := (e 2).toFloat
+  let e0 := (e 3).toFloat
+  let sdelta := (e 4).toFloat
+  let dt := (e 5).toFloat
+  let fcut : Float32 := e 6
+  let wsc0 : Float32 := (ib * dt * c_light / qscale.toFloat / (delta.toFloat * sdelta * e0)).toFloat32
+  let wakescaling : Float32 := wsc0 / Float32.ofNat nmax
+  let volts : Float := (delta * pscale / revpart).toFloat
+  let f4wph : Float := 2.0 * 1.0 * 1.0 * 1.0 / frev
+  let hz : Float32 := (c_light / qscale.toFloat).toFloat32
+  let f4w : Float := f4wph * hz.toFloat
+  let fax : Ruler Float32 := { steps := nmax, min := f32zero, max := Float32.ofBits 0x3f800000 / delta }
+  let renorm0 : Float32 := delta * delta
+  let renormCut : Nat → Float32 := fun i =>
+    let r := (hz * fax.at i / fcut).toFloat
+    (renorm0.toFloat * (1.0 - Float.exp (-(r * r)))).toFloat32
+  let pi := 3.14159265358979323846
+  let twArr : Array (Float × Float) := ((List.range (max nmax 1)).map fun j =>
+      let a := 2.0 * pi * j.toFloat / nmax.toFloat
+      (Float.cos a, -(Float.sin a))).toArray
+  let tw : Nat → Cx Float := fun j => twArr.getD j (1.0, 0.0)
+  let tr := naiveTransforms nmax tw 2.0
+  let mk (cut : Bool) : EFConst Float :=
+    { n := n, nb := nb, nmax := nmax, spacing := spacing,
+      bucket := fun b => (c.off.getD b f32zero).toUInt32.toNat,
+      z := fun i => zArr.getD i (0.0, 0.0), wakescaling := wakescaling.toFloat,
+      renorm := fun i => if cut && fcut > 0 then (renormCut i).toFloat else renorm0.toFloat,
+      dfreq := fax.delta.toFloat }
+  let valsLine := hexLine "vals" [wakescaling, volts.toFloat32, f4wph.toFloat32, f4w.toFloat32]
+  let profOf (k : Nat) : Nat → Nat → Float := fun b x => (c.data.getD (k * nb * n + b * n + x) f32zero).toFloat
+  -- materialise buffers after every op so that closures do not grow
+  let freeze (k : EFConst Float) (s : EFState Float) : EFState Float :=
+    let bp := ((List.range nmax).map s.bp).toArray
+    let ff := ((List.range nmax).map s.ff).toArray
+    let wl := ((List.range nmax).map s.wl).toArray
+    let wp := ((List.range nmax).map s.wp).toArray
+    let wk := ((List.range (nb * n)).map fun i => s.wake (i / n) (i % n)).toArray
+    let sp := ((List.range (nb * nmax)).map fun i => s.spec (i / nmax) (i % nmax)).toArray
+    let pw := ((List.range nb).map s.pow).toArray
+    { bp := fun i => bp.getD i 0.0, ff := fun i => ff.getD i (0.0, 0.0), wl := fun i => wl.getD i (0.0, 0.0),
+      wp := fun i => wp.getD i 0.0, wake := fun b x => wk.getD (b * n + x) 0.0,
+      spec := fun b i => sp.getD (b * k.nmax + i) 0.0, pow := fun b => pw.getD b 0.0 }
+  let (_, _, lines) := c.words.foldl (fun (acc : EFState Float × Nat × List String) op =>
+    let (s, cur, out) := acc
+    if op.startsWith "P" then (s, ((op.drop 1).toString.toNat?).getD 0, out)
+    else
+      let k := mk (op == "c")
+      let prof := profOf cur
+      let s' := match op with
+        | "w" => efWake k tr prof s
+        | "p" => efPad k prof s
+        | "c" => efCSR k tr prof s
+        | "C" => efCSR k tr prof s
+        | _ => s
+      let s' := freeze k s'
+      let l0 := ["ops " ++ op, dLine "pad" ((List.range nmax).map s'.bp)]
+      let l1 := if op == "w" then
+          [dLine "wake" ((List.range (nb * n)).map fun i => s'.wake (i / n) (i % n)),
+           dLine "wpad" ((List.range nmax).map s'.wp)] else []
+      let l2 := if op == "c" || op == "C" then
+          [dLine "spec" ((List.range (nb * nmax)).map fun i => s'.spec (i / nmax) (i % nmax)),
+           dLine "pow" ((List.range nb).map s'.pow)] else []
+      (s', cur, out ++ l0 ++ l1 ++ l2)) (freeze (mk false) EFState.fresh, 0, [])
+  ["case " ++ c.id, valsLine] ++ lines
+
 def dispatch (c : Case) : List String :=
   match c.kind with
   | "kick" => runKick c
@@ -214,6 +307,7 @@ def dispatch (c : Case) : List String :=
   | "ident" => runIdent c
   | "rf" => runRF c
   | "ps" => runPS c
+  | "ef" => runEF c
   | "drift" => runDrift c
   | k => ["case " ++ c.id, "error unknown-kind " ++ k]
 
